@@ -1,3 +1,16 @@
 from obl.vset_common import get_obls
-OBLIGATIONS = get_obls("a", 1, ((2, 0, 0, 1, 2, 1),)) + get_obls("a", 2, ((2, 0, 0, 1, 2, 1),), known="F2-repair-level0-order", tag="-finding")
-META = {"level": "model_checking"}
+
+# a: placement (all tables in level 0, as repair.c's write_descriptor does) vs level-0 lookup
+OBLIGATIONS = (get_obls("a", 1, ((2, 0, 0, 1, 2, 1), (2, 0, 0, 1, 2, 2))) +
+               get_obls("a", 1, ((3, 0, 0, 1, 2, 1),), tier="thorough") +
+               get_obls("a", 2, ((2, 0, 0, 1, 2, 1),), known="F2-repair-level0-order", tag="-finding"))
+
+META = {
+    "level": "model_checking",
+    "level_text": "Bounded model checking (CBMC) of the real ldb_version_get (version_set.c with the real internal-key comparator) over tables placed the way repair.c places them (everything in level 0 under its old file number), against the reference 'newest entry <= snapshot over all surviving entries'. The strict obligation excludes exactly the listed finding F2; the finding itself is a separate obligation whose counterexample is replayed natively (and end-to-end by findings/F2/run.sh) and printed as KNOWN-FINDING.",
+    "level_note": "Trusted: CBMC semantics; the table layer is replaced by the contract of ldb_tables_get (first entry >= key); file numbers/sequences range over 1..15 (the code only compares them); repair.c's own scan/convert/descriptor code (C19.b-d) is not yet encoded: string- and directory-heavy, see DESIGN section 6 C19.",
+    "bounds": ["2-3 tables in level 0, 1-2 entries each, 1-byte user keys, sequences and file numbers 1..15, any snapshot"],
+    "outside": ["repair.c scan_table / convert_log_to_table / write_descriptor counters (C19.b-d)", "iterators after repair (merge by sequence: C07)", "archive/rename of damaged files"],
+    "models": ["ldb_tables_get contract model in harness/vset/get.c", "kit/vp_alloc.c incl. typed pointer arrays for ldb_vector_t"],
+    "design_ref": "DESIGN.md section 6 C19.a, section 8 F2",
+}
